@@ -27,6 +27,8 @@ from phonopy.structure.tetrahedron_method import TetrahedronMethod
 
 TOL_POINT = 1e-9      # point-wise agreement with the definition, relative to the largest value
 TOL_QUAD = 5e-2       # quadrature statements (trapezoid on a fine grid), relative to the number of bands
+TOL_ADD = 1e-10       # projections add up to the total, relative to the largest total
+TOL_ADD_POINT = 1e-9  # ... and relative to the total at the same frequency point (gaps, tails)
 TOL_DERIV = 1e-5      # density vs central difference of the cumulative weight, relative to the largest density
 TOL_QUAD_NORMAL = 1e-6
 TOL_QUAD_CAUCHY = 2e-3
@@ -210,7 +212,9 @@ def run_session(ctx, entry, S, mesh_numbers, k, mg):
         except tlcmod.MachineryError:
             raise
         except Exception as e:  # an exception of phonopy where the specification expects a result
-            step["err"] = "%s: %s" % (type(e).__name__, str(e)[:200])
+            # the call raised where the specification expects a result: the step is logged as "failed"
+            # (no result fields), ImplNoError reports it
+            step = dict(op="failed", what=str(step.get("op")), err="%s: %s" % (type(e).__name__, str(e)[:200]))
         ses["steps"].append(step)
 
     # ---- full grid -------------------------------------------------------
@@ -390,6 +394,62 @@ def run_session(ctx, entry, S, mesh_numbers, k, mg):
         for method in ("tetrahedron", "normal"):
             attempt(dict(op="projected", kind=kind, method=method), lambda st, k_=kind, m_=method: projected(st, k_, m_))
 
+    # ---- smearing functions x widths ------------------------------------------------------
+    # widths from a sixth of the spectrum down to 1/400 of it (gaps then are many widths wide); the grid
+    # reaches 0.3 spans beyond the spectrum on both sides
+    widths = [("wide", span / 6.0), ("medium", span / rng.uniform(15.0, 40.0)), ("small", span / rng.uniform(150.0, 400.0))]
+    sm_grid = dict(freq_min=fmin - 0.3 * span, freq_max=fmax + 0.3 * span, freq_pitch=1.6 * span / 57.0)
+
+    def smearing(st, fname, sigma, mesh_obj, fr, with_projections):
+        td = TotalDos(mesh_obj, sigma=sigma)
+        td.set_smearing_function("Cauchy" if fname == "cauchy" else "Normal")
+        td.set_draw_area(sm_grid["freq_min"], sm_grid["freq_max"], sm_grid["freq_pitch"])
+        td.run()
+        fp, tot = np.array(td.frequency_points), np.array(td.dos)
+        st["npoints"] = int(len(fp))
+        ref = def_dos_smear(fname, sigma, fr, mesh_obj.weights, fp)
+        scale = max(float(np.max(np.abs(ref))), 1e-300)
+        # point-wise relative as well (tails and gaps), with an absolute floor far below any kernel value in use
+        floor = 1e-200
+        def both(a, b):
+            return max(float(np.max(np.abs(a - b))) / scale, float(np.max(np.abs(a - b) / (np.abs(b) + floor))) * 1e-1)
+        r = both(tot, ref)
+        st["matchesTotal"] = st["matches"] = cls(r, TOL_POINT)
+        mg.note("smearing %s total point-wise (scale and per point)" % fname, r, TOL_POINT)
+        fin = bool(np.all(np.isfinite(tot)))
+        nn = bool(fin and tot.min() >= 0.0)
+        st["projected"] = bool(with_projections)
+        if with_projections:
+            for kind, key in (("atoms", "Atoms"), ("xyz", "Xyz")):
+                pdos = ProjectedDos(mesh_obj, sigma=sigma, xyz_projection=(kind == "xyz"))
+                pdos.set_smearing_function("Cauchy" if fname == "cauchy" else "Normal")
+                pdos.set_draw_area(sm_grid["freq_min"], sm_grid["freq_max"], sm_grid["freq_pitch"])
+                pdos.run()
+                pfp, pd = np.array(pdos.frequency_points), np.array(pdos.projected_dos)
+                if len(pfp) != len(fp) or np.max(np.abs(pfp - fp)) > 0:
+                    raise tlcmod.MachineryError("frequency grids of total and projected DOS differ")
+                fin &= bool(np.all(np.isfinite(pd)))
+                nn &= bool(fin and pd.min() >= 0.0)
+                pref = def_dos_smear(fname, sigma, fr, mesh_obj.weights, fp, coefficients(eig, kind))
+                rp = max(float(np.max(np.abs(pd - pref))) / scale,
+                         float(np.max(np.abs(pd - pref) / (np.abs(pref) + floor))) * 1e-1)
+                st["matches" + key] = cls(rp, TOL_POINT)
+                mg.note("smearing %s projected point-wise (scale and per point)" % fname, rp, TOL_POINT)
+                acc = pd.sum(axis=0)
+                a_scale = float(np.max(np.abs(acc - tot))) / scale
+                a_point = float(np.max(np.abs(acc - tot) / (np.abs(tot) + floor)))
+                st["additive" + key] = cls(a_scale, TOL_ADD)
+                st["additive" + key + "Pointwise"] = cls(a_point, TOL_ADD_POINT)
+                st["nproj" + key] = int(pd.shape[0])
+                mg.note("smearing %s additivity (scale)" % fname, a_scale, TOL_ADD)
+                mg.note("smearing %s additivity (per point)" % fname, a_point, TOL_ADD_POINT)
+        st["finite"], st["nonneg"] = fin, nn
+
+    for fname in ("normal", "cauchy"):
+        for wname, sigma in widths:
+            attempt(dict(op="smearing", fn=fname, width=wname, reduced=False),
+                    lambda st, f_=fname, s_=float(sigma): smearing(st, f_, s_, mo, freqs, True))
+
     # ---- frequency grids that are not ascending ----------------------------------------
     from phonopy.phonon.dos import run_tetrahedron_method_dos
 
@@ -465,6 +525,11 @@ def run_session(ctx, entry, S, mesh_numbers, k, mg):
         attempt(dict(op="total", method="tetrahedron", grid="given", reduced=True),
                 lambda st: total_thm(st, mesh_obj=mo2, tups=tup2, fr=fr2))
         attempt(dict(op="total", method="normal", reduced=True), lambda st: total_smear(st, "normal", mesh_obj=mo2, fr=fr2))
+        attempt(dict(op="total", method="cauchy", reduced=True), lambda st: total_smear(st, "cauchy", mesh_obj=mo2, fr=fr2))
+        for fname in ("normal", "cauchy"):
+            wname, sigma = widths[2] if fname == "cauchy" else widths[1]
+            attempt(dict(op="smearing", fn=fname, width=wname, reduced=True),
+                    lambda st, f_=fname, s_=float(sigma): smearing(st, f_, s_, mo2, fr2, False))
     ses["diag_candidates"] = cands
     return ses
 
@@ -490,6 +555,10 @@ INVARIANT ImplCumulativeMonotone
 INVARIANT ImplDensityIsDerivative
 INVARIANT ImplIntegral
 INVARIANT ImplOrderIndependent
+INVARIANT ImplSmearingFunction
+INVARIANT ImplSmearingTotal
+INVARIANT ImplSmearingProjected
+INVARIANT ImplSmearingAdditive
 INVARIANT ImplAdditive
 INVARIANT ImplProjectionCount
 """
@@ -504,7 +573,7 @@ def run(ctx):
         sessions.append(ses)
         for st in ses["steps"]:
             ctx.count(("api", ses["name"], st["op"], st.get("method"), st.get("kind"), st.get("grid"), st.get("reduced"),
-                       st.get("order")))
+                       st.get("order"), st.get("fn"), st.get("width")))
     ctx.traces += len(sessions)
     ctx.extra["E_sessions"] = [dict(name=s["name"], steps=len(s["steps"]), diag_candidates=s.get("diag_candidates"),
                                     n_ir=s.get("n_ir")) for s in sessions]
@@ -534,7 +603,7 @@ def run(ctx):
             step = ses["steps"][kk - 1]
         tag = ""
         if isinstance(step, dict):
-            tag = ":%s:%s" % (step.get("op"), step.get("method") or step.get("kind") or "")
+            tag = ":%s:%s" % (step.get("op"), step.get("method") or step.get("fn") or step.get("kind") or "")
         key = "api:%s%s" % (name, tag)
         if key in seen:
             continue
